@@ -536,6 +536,14 @@ func (f *Func) reachTarget(
 						log.Trace("setting node value", "value", r.Value)
 						v.Value = r.Value
 					}
+
+					// A named value without a value of its own takes the
+					// value of the same-named value (with a subtype) that
+					// the path reaches it through.
+					if r, ok := prev.(*valueVertex); ok && !v.Value.IsValid() && r.Value.IsValid() {
+						log.Trace("setting node value", "value", r.Value)
+						v.Value = r.Value
+					}
 				}
 
 				// Store the last viewed vertex in our path state
